@@ -36,6 +36,8 @@ def _errors_from_string(value: str) -> list[tuple[int, str]]:
             pos = int(pos, 10)
         except ValueError:
             pos = from_isodatetime(pos)
+        if pos is None:
+            raise ValueError(f'HTTP error position missing: "{val}"')
         items.append((int(code, 10), pos))
     return items
 
